@@ -1,12 +1,69 @@
-"""C06 - see checks/l2props.py (CONFIG["C06"]) and DESIGN.md section 4."""
+"""C06 - see checks/l2props.py (CONFIG["C06"]) and DESIGN.md section 4.
+
+Besides the symbolic truncation clauses (all classes, all cuts) a native sweep runs as a labelled bounded
+stand-in: every strict prefix of the encoding of one populated instance of every class must raise
+BufferUnderflow. It proves nothing; it is the witness finder for code the engine cannot model
+(then the symbolic unit is undecided and only this sweep can turn that into a replayable violation)."""
 import sys
 
 import boot  # noqa: F401
-from checks import l2props
+from checks import common, l2props
+
+
+def prefix_unit(keys):
+    import io
+    from checks import c15, l2
+    from kio.serial import entity_reader, entity_writer
+    from kio.serial.errors import BufferUnderflow
+    n, fails = 0, []
+    for key in keys:
+        T = l2.resolve(key)
+        try:
+            x = c15.sample_instance(T, True)
+            buf = io.BytesIO()
+            entity_writer(T)(buf, x)
+            data = buf.getvalue()
+        except Exception:        # noqa: BLE001
+            continue            # not encodable: other properties' business
+        rd = entity_reader(T)
+        for cut in range(len(data)):
+            n += 1
+            try:
+                r = rd(io.BytesIO(data[:cut]))
+                obs = f"returned {r!r}"[:200]
+            except BufferUnderflow:
+                continue
+            except BaseException as ex:      # noqa: BLE001
+                obs = f"raised {type(ex).__name__}: {ex}"[:200]
+            if len(fails) < 3:
+                fails.append({"key": f"strict-prefix-raises-BufferUnderflow/{key}", "input": f"{key}: first {cut} of {len(data)} bytes {data[:cut].hex()[:160]}",
+                              "expected": "BufferUnderflow", "observed": obs})
+    return [{"unit": f"bounded/prefix-sweep/{keys[0]}..", "obligations": [], "undecided": [], "paths": 0, "time": 0.0, "functions": [],
+             "bounded": {"n": n, "failures": fails}}]
+
+
+def run_unit(spec):
+    return prefix_unit(spec)
+
+
+def extra(rep):
+    from checks import l2
+    keys = [l2.class_key(T) for T in l2.all_entities()]
+    chunks = [keys[i:i + 40] for i in range(0, len(keys), 40)]
+    n, fails = 0, []
+    for u in common.run_units("checks.c06", chunks):
+        b = u.get("bounded") or {}
+        n += b.get("n", 0)
+        fails += b.get("failures", [])
+        if u.get("crash"):
+            fails.append({"key": "prefix-sweep-crashed", "input": u["unit"], "expected": "runs", "observed": u["crash"][-300:]})
+    rep.add_bounded("bounded/every-strict-prefix-of-a-populated-instance-raises-BufferUnderflow",
+                    f"{len(keys)} classes, one populated instance each (arrays of two items, every nullable set, every tagged field "
+                    f"non-default), every cut position: {n} native decodes", n, fails[:40])
 
 
 def main(tier):
-    return l2props.main("C06", tier)
+    return l2props.main("C06", tier, extra=extra)
 
 
 if __name__ == "__main__":
